@@ -107,7 +107,7 @@ static bool gen_c13(uint64_t seed, const std::string &tier, uint64_t i, Plan &p)
   Json home = Json::obj(); home.set("path", "/home/user1");
   int hm = (int)r.below(12);
   home.set("mode", hm == 0 ? 01755 : hm == 1 ? 0775 : hm == 2 ? 0757 : hm == 3 ? 0700 : 0755);
-  static const std::vector<std::string> names = {".qmail", ".qmail-a", ".qmail-a-default", ".qmail-default", ".qmail-a-b-default", ".qmail-a-b", ".qmail-a:b", ".qmail-list", ".qmail-list-owner", ".qmail-list-owner-default", ".qmail-a-owner", ".qmail-default-owner", ".qmail-x-default"};
+  static const std::vector<std::string> names = {".qmail", ".qmail-a", ".qmail-a-default", ".qmail-default", ".qmail-a-b-default", ".qmail-a-b", ".qmail-a:b", ".qmail-list", ".qmail-list-owner", ".qmail-list-owner-default", ".qmail-a-owner", ".qmail-default-owner", ".qmail-x-default", ".qmail-liz", ".qmail-liz", ".qmail-zaz-z", ".qmail-zaz-default"};
   Json files = Json::arr(); std::set<std::string> have;
   int nf = (int)r.range(0, 6);
   for (int q = 0; q < nf; q++) {
@@ -128,7 +128,7 @@ static bool gen_c13(uint64_t seed, const std::string &tier, uint64_t i, Plan &p)
   home.set("files", files); Json md = Json::arr(); md.push("Maildir"); home.set("maildirs", md);
   home.set("mbox", "Mailbox").set("mbox_initial", "");
   p.knobs.set("home", home);
-  static const std::vector<std::string> exts = {"", "a", "a-b", "a-b-c", "A", "A-B", "a.b", "a-", "a--b", "x", "x-y", "list", "list-owner", "default", "a-default", "a/b", "../x", "a-b-", "-", "aa", "q", "a:b", std::string(250, 'x'), "a-" + std::string(250, 'y'), std::string(120, 'z') + "-" + std::string(130, 'w')};   // (the last three: candidate names beyond NAME_MAX, which cannot exist and must count as absent)
+  static const std::vector<std::string> exts = {"", "a", "a-b", "a-b-c", "A", "A-B", "a.b", "a-", "a--b", "x", "x-y", "list", "list-owner", "default", "a-default", "a/b", "../x", "a-b-", "-", "aa", "q", "a:b", "LIZ", "liz", "Zaz-Z", "zaz-z", std::string(250, 'x'), "a-" + std::string(250, 'y'), std::string(120, 'z') + "-" + std::string(130, 'w')};   // (the last three: candidate names beyond NAME_MAX, which cannot exist and must count as absent)
   int nd = (int)r.range(1, 2);
   for (int q = 0; q < nd; q++) {
     Json d = Json::obj(); d.set("op", "deliver").set("id", "d" + std::to_string(q + 1));
